@@ -394,7 +394,7 @@ fn has_optional(m: &WireMessage) -> bool {
         }
 }
 
-fn check_message(r: &mut Report, m: &WireMessage) {
+pub fn check_message(r: &mut Report, m: &WireMessage) {
     r.eval();
     let kind = kind_of(m);
     let case = || json!({"class":"roundtrip","kind":kind,"message": format!("{m:?}").chars().take(900).collect::<String>()});
@@ -538,7 +538,7 @@ fn expected_of_example(name: &str) -> Option<WireMessage> {
     Some(WireMessage { transaction_id: 0x6161, version: None, requester_ip: None, message_type: mt, read_only: name == "bep43/ping-q-ro" })
 }
 
-fn check_examples(r: &mut Report) {
+pub fn check_examples(r: &mut Report) {
     for ex in EXAMPLES {
         r.eval();
         if let Some(why) = ex.skip {
